@@ -108,8 +108,14 @@ def run(prop, tier, seed, profile, spec, interest, proof_files, n_quick=1500, n_
             v.violation(dict(property=prop, broken='proof obligations do not check', info=info), tag='proof',
                         no_input=True)
             n_viol += 1
+    extra_cov = {}
     if post:
-        n_viol += post(v, charts, cases, masks) or 0
+        r = post(v, charts, cases, masks)
+        if isinstance(r, tuple):
+            n_viol += r[0]
+            extra_cov = r[1]
+        else:
+            n_viol += r or 0
     dist = ifam.distribution(cases)
     fps = {ifam.case_fingerprint(c) for c in cases if ifam.nontrivial(c)}
     samples = []
@@ -140,6 +146,7 @@ def run(prop, tier, seed, profile, spec, interest, proof_files, n_quick=1500, n_
                                     'sismic/model/statechart.py', 'sismic/interpreter/listener.py']),
         proof_info={k: info.get(k) for k in ('build_ok', 'ok', 'closed', 'axioms', 'forbidden_tokens', 'note')},
     )
+    cov.update(extra_cov)
     write_evidence(prop, tier, seed, t0, cov, list(assumptions), n_viol, level=level)
     return v.finish()
 
